@@ -181,3 +181,38 @@ Definition to_timer (a : atimer) : MetricMap.timer :=
   MkTimer (at_bits a) (t_sampled (at_t a)) (at_ts a) (at_src a) (Stats.t_tags (at_t a)).
 Definition to_mmap (a : agg) : mmap :=
   MkMap (to_counter <$> a_counters a) (to_timer <$> a_timers a) (a_gauges a) (a_sets a).
+
+(* ---- vocabulary of the history theorems (Props/C08.v) ------------------------------------- *)
+
+(* the values (as exact rationals, in arrival order) and the sampled count that ReceiveMap has
+   handed to timer series [k] since the last Reset of the history *)
+Definition pend_step (k : skey) (acc : list Qc * Qc) (o : aop) : list Qc * Qc :=
+  match o with
+  | ARecv m => match timers m !! k with
+               | Some t => (acc.1 ++ qvals (t_vals t), (acc.2 + t_samp t)%Qc)
+               | None => acc
+               end
+  | AFlush _ => acc
+  | AReset _ => ([], 0%Qc)
+  end.
+Definition received_since_reset (ops : list aop) (k : skey) : list Qc * Qc :=
+  fold_left (pend_step k) ops ([], 0%Qc).
+
+(* some Flush of the history has not been followed by a Reset yet (never the case in the
+   flusher, which runs Flush; Process; Reset in one worker command) *)
+Definition flush_step (b : bool) (o : aop) : bool :=
+  match o with ARecv _ => b | AFlush _ => true | AReset _ => false end.
+Definition flushed_since_reset (ops : list aop) : bool := fold_left flush_step ops false.
+
+(* incoming maps as MetricMap.Receive and the forwarder's decoder build them: a timer without
+   values has sampled count 0; tags shorter than 2^32 bytes *)
+Definition sane_map (m : mmap) : Prop :=
+  forall k t, timers m !! k = Some t ->
+    (t_vals t = [] -> t_samp t = 0%Qc) /\ forall tag, In tag (MetricMap.t_tags t) -> len tag < 2^32.
+Definition sane_ops (ops : list aop) : Prop := forall m, In (ARecv m) ops -> sane_map m.
+
+(* number of timer values an incoming map / a history hands to the aggregator (a timer cannot hold
+   2^52 values: that would be 32 PiB) *)
+Definition mm_values (m : mmap) : Z := foldr (λ kv acc, len (t_vals kv.2) + acc) 0 (map_to_list (timers m)).
+Definition op_values (o : aop) : Z := match o with ARecv m => mm_values m | _ => 0 end.
+Definition ops_values (ops : list aop) : Z := foldr (λ o acc, op_values o + acc) 0 ops.
